@@ -64,6 +64,12 @@ enum Step {
     Heal,
     /// advance the clock of all nodes (each gets evict_expired(now))
     Tick { ms: u32 },
+    /// ordinary traffic in bulk: the node SETs `n` fresh filler keys; every resulting delta is
+    /// handed to every other node at once (a side channel that is never cut: the filler keys are
+    /// not what the case is about). Makes the node's key table large and its clock advance by
+    /// thousands of ticks between two commands on the keys under observation, as any busy
+    /// node's would.
+    Bulk { node: u8, n: u16 },
 }
 
 #[derive(Clone, Debug, Serialize, Deserialize)]
@@ -203,12 +209,29 @@ fn case_strategy(thorough: bool) -> impl Strategy<Value = Case> {
     let max_steps = if thorough { 80 } else { 40 };
     // tick mode: none 50 %, sparse 25 %, dense 25 %
     let tick_mode = prop_oneof![2 => Just(0u8), 1 => Just(1u8), 1 => Just(2u8)];
-    (2u8..=max_nodes, 0u8..3, any::<bool>(), tick_mode, any::<bool>()).prop_flat_map(
+    let ordinary = (2u8..=max_nodes, 0u8..3, any::<bool>(), tick_mode, any::<bool>()).prop_flat_map(
         move |(nodes, profile, lossy, tick_mode, redeliver_lost)| {
             proptest::collection::vec(step_strategy(profile, lossy, tick_mode), 4..max_steps)
                 .prop_map(move |steps| Case { nodes, steps, redeliver_lost })
         },
-    )
+    );
+    // scale class (1 case in 30): a short program on the observed keys, then thousands of writes of
+    // filler keys at one node (key table > 1024 entries, clock advanced by > 4096 ticks), then a
+    // short program again; what the first part left in flight is delivered late, after the bulk
+    let scale = (2u8..=3, 1u8..3, prop_oneof![Just(1_100u16), Just(4_200u16), Just(5_200u16)], 0u8..8).prop_flat_map(
+        move |(nodes, profile, count, bulk_node)| {
+            (
+                proptest::collection::vec(step_strategy(profile, false, 0), 4..14),
+                proptest::collection::vec(step_strategy(profile, false, 0), 3..12),
+            )
+                .prop_map(move |(mut steps, tail)| {
+                    steps.push(Step::Bulk { node: bulk_node, n: count });
+                    steps.extend(tail);
+                    Case { nodes, steps, redeliver_lost: false }
+                })
+        },
+    );
+    prop_oneof![29 => ordinary.boxed(), 1 => scale.boxed()]
 }
 
 // ---------------------------------------------------------------------------------------
@@ -416,6 +439,7 @@ struct Net<'a, 'b> {
     keys: BTreeMap<String, KeyInfo>,
     trace: Vec<String>,
     faulty_delivery: bool,
+    bulk_rounds: u32,
     tolerated_at: BTreeSet<(String, String, &'static str)>,
     /// presence per node at the last verdict (D only judges what eviction changed)
     last_presence: BTreeMap<String, Vec<bool>>,
@@ -753,6 +777,37 @@ impl<'a, 'b> Net<'a, 'b> {
                 self.advance_clock(*ms as u64, "evict_expired on every node").await?;
                 self.ctx.label("tick");
             }
+            Step::Bulk { node, n: count } => {
+                let node = *node as usize % n;
+                self.bulk_rounds += 1;
+                for i in 0..*count {
+                    let key = format!("fill:{}:{}", self.bulk_rounds, i);
+                    let (_, returned) = run(&self.nodes[node], &["SET", &key, "x"]).await?;
+                    let mut deltas = self.nodes[node].drain_pending_deltas().await;
+                    if let Some(r) = returned {
+                        if !deltas.iter().any(|d| d.key == r.key) {
+                            deltas.push(r);
+                        }
+                    }
+                    for d in deltas {
+                        for to in 0..n {
+                            if to != node {
+                                self.nodes[to].apply_remote_delta(d.clone());
+                            }
+                        }
+                    }
+                }
+                self.trace.push(format!(
+                    "n{} bulk: SET of {} fresh filler keys fill:{}:*, each delta handed to every other node at once",
+                    node + 1,
+                    count,
+                    self.bulk_rounds
+                ));
+                self.ctx.label("bulk_traffic");
+                if *count > 4096 {
+                    self.ctx.label("bulk_traffic:>4096_writes");
+                }
+            }
         }
         Ok(())
     }
@@ -1039,7 +1094,9 @@ impl<'a, 'b> Net<'a, 'b> {
         for round in 0..2 {
             for i in 0..n {
                 let snap = self.snapshot(i).await;
-                let mut ks: Vec<&String> = snap.keys().collect();
+                // the filler keys of a Bulk step were handed to every node when they were written
+                // and are not observed: they are left out of the exchange (cost only)
+                let mut ks: Vec<&String> = snap.keys().filter(|k| !k.starts_with("fill:")).collect();
                 ks.sort();
                 for j in 0..n {
                     if i == j {
@@ -1104,6 +1161,7 @@ fn check_case(case: &Case, ctx: &mut CaseCtx<'_>) -> Result<(), String> {
             keys: BTreeMap::new(),
             trace: Vec::new(),
             faulty_delivery: false,
+            bulk_rounds: 0,
             tolerated_at: BTreeSet::new(),
             last_presence: BTreeMap::new(),
             idle_tick_seen: vec![false; n],
